@@ -1271,7 +1271,6 @@ func (k *Kernel) checkNextRoundPrecommitViewShift(ctx context.Context, s *kState
 		"new_height", newHeight, "new_round", newRound,
 	)
 
-	maj := tmconsensus.ByzantineMajority(vs.AvailablePower)
 	maxPow := vs.PrecommitBlockPower[vs.MostVotedPrecommitHash]
 	if maxPow >= min {
 		// Make a PH fetch request if we don't have the proposed block
@@ -1279,14 +1278,13 @@ func (k *Kernel) checkNextRoundPrecommitViewShift(ctx context.Context, s *kState
 		k.checkMissingPHs(ctx, s, s.Voting.PrecommitProofs)
 	}
 
-	if maxPow >= maj {
-		// The round we just jumped to already has a majority precommit.
-		// It is the voting round now, so the regular check applies:
-		// commit the block if we have it, or advance past a nil commit.
-		return k.checkVotingPrecommitViewShift(ctx, s)
-	}
-
-	return nil
+	// The round we just jumped to is the voting round now, so the regular check applies:
+	// if it already has a majority precommit, commit the block if we have it
+	// or advance past a nil commit;
+	// and if every validator has precommitted without a majority, advance as well.
+	// No later vote for this round would run that check again,
+	// because any copy of these precommits arriving later is redundant.
+	return k.checkVotingPrecommitViewShift(ctx, s)
 }
 
 // checkPrevoteViewShift inspects the Next Round to see if the total prevotes
